@@ -12,6 +12,9 @@ func generate(prop string, seed int64, n int) []Group {
 	var groups []Group
 	for i := 0; i < n; i++ {
 		var gr Group
+		// registration ids need to be distinct within a group only; small ids keep the unary numbers the model
+		// computes with small (ids in the tens of thousands made the thorough tier thirty times slower per case)
+		g.nextRid = 1
 		switch prop {
 		case "C20":
 			gr = genC20(g, i)
@@ -842,7 +845,9 @@ func genC06(g *Gen, i int) Group {
 	if i%5 == 2 {
 		// one output of a multi-output registration removed and replaced: the same history, built again and again
 		// (what runs first at Build is up to hash-map order; the outcome must not be)
+		g.forceReplace = true
 		one := g.multiOutCase(i).Cases[0]
+		g.forceReplace = false
 		var cs []Case
 		for v := 0; v < 6; v++ {
 			cp := make([]Op, len(one.Ops))
@@ -1016,6 +1021,9 @@ func (g *Gen) wideTree(regs []*Reg, before []Op) []Op {
 // group, and a provider built before the change keeps its own view.
 func (g *Gen) multiOutCase(i int) Group {
 	life := g.life([3]int{2, 3, 2})
+	if g.forceReplace {
+		life = Singleton
+	}
 	tys := g.rnd.Perm(8)
 	pick := func(k int) int {
 		t := tys[k]
@@ -1122,7 +1130,7 @@ func (g *Gen) multiOutCase(i int) Group {
 	}
 	var victim *ident
 	replaced := false
-	if len(plain) > 0 && g.p(0.85) {
+	if len(plain) > 0 && (g.p(0.85) || g.forceReplace) {
 		v := plain[g.n(len(plain))]
 		victim = &v
 		if v.name != 0 {
@@ -1131,10 +1139,10 @@ func (g *Gen) multiOutCase(i int) Group {
 			ops = append(ops, Op{Kind: "remove", Ty: v.ty}, Op{Kind: "contains", Ty: v.ty})
 		}
 		ops = append(ops, Op{Kind: "count"}, Op{Kind: "slice"})
-		if g.p(0.6) {
+		if g.p(0.6) || g.forceReplace {
 			// the freed identity is taken by another constructor (the newcomer depends on something, so that it runs late)
 			nl := g.life([3]int{1, 2, 1})
-			if life == Singleton && g.p(0.7) {
+			if life == Singleton && (g.p(0.7) || g.forceReplace) {
 				nl = Singleton
 			}
 			nd := v.ty
@@ -1144,7 +1152,7 @@ func (g *Gen) multiOutCase(i int) Group {
 			// the newcomer depends on something (it runs late), or on nothing: then whether it or the multi-output
 			// constructor runs first at Build is up to the order of a hash map
 			var nps []Param
-			if g.p(0.5) {
+			if g.p(0.5) && !g.forceReplace {
 				nps = []Param{{Dep: Dep{Ty: tys[7]}}}
 			}
 			n := &Reg{ID: g.nextRid, Life: nl, Form: Form{Kind: "ctor", Params: nps, Rets: []int{v.ty}}, Dyn: []int{nd}, CFail: []bool{false}, Name: v.name}
